@@ -142,7 +142,7 @@ def run_shard(spec, acc):
     for d in defs:
         rng = gen.rng_for(spec["seed"], ID, d.id)
         nb = d.length if d.length is not None else (d.total_bits() + 7) // 8
-        for rep in range(3 if quick else 12):
+        for rep in range(3 if quick else 120):
             base_payload = dbx.pack(d, gen.base_raws(d, rng, dbx))
             if dbx.select(d.pgn, base_payload) is not d:
                 continue
